@@ -157,7 +157,7 @@ def finish(a, mod, jobs, results, known, root, seed, t0, partial=False):
     reasons = []
     tot = dict(paths=0, forks=0, queries=0, sat=0, unsat=0, solver_s=0.0, checks=0,
                realisations=0, aborted=0, assumes=0)
-    xchecks = replays = 0
+    xchecks = replays = knife = 0
     hits = {}
     samples = []
     funcs = set()
@@ -170,6 +170,7 @@ def finish(a, mod, jobs, results, known, root, seed, t0, partial=False):
         for k in tot:
             tot[k] += r['stats'].get(k, 0)
         xchecks += r['xchecks']
+        knife += r.get('knife_edge_paths', 0)
         replays += r['replays']
         h = hits.setdefault(name, {})
         for k, v in r['hits'].items():
@@ -262,6 +263,7 @@ def finish(a, mod, jobs, results, known, root, seed, t0, partial=False):
             'obligation_checks': tot['checks'],
             'realisations_at_C_boundaries': tot['realisations'],
             'paths_cut_by_assumption': tot['aborted'],
+            'paths_without_concrete_cross_check_knife_edge_of_a_real_comparison': knife,
             'obligation_hits': hits,
             'per_harness': per_harness,
             'functions_executed': sorted(funcs),
